@@ -328,8 +328,12 @@ class C09(Engine):
                 return type(e).__name__
             return None
 
+        bg_seen = [False]
+        base_threads = [set()]
+
         def settle():
-            quiet = ctx.quiesce(10.0)
+            # wait for the helper threads of this command (not for those a background job still owns)
+            quiet = k.wait_quiescent(10.0, include=lambda r: r.kind == "thread" and r.name not in base_threads[0])
             before_gc = len(procworld.fd_table())
             gc.collect()
             if len(procworld.fd_table()) < before_gc:
@@ -366,6 +370,8 @@ class C09(Engine):
                         # a background pipeline has not finished: nothing to compare; what it holds
                         # becomes part of the baseline for the commands after it
                         base = snap
+                        bg_seen[0] = True
+                        base_threads[0] = set(snap["threads"])
                         for p_ in simproc.ALL:
                             p_.background = True
                         continue
@@ -386,7 +392,7 @@ class C09(Engine):
                 if V:
                     break
                 # Ctrl-C must still interrupt
-                if not cmd["bg"]:
+                if not cmd["bg"] and not bg_seen[0]:  # (a running background job may legitimately own the handler)
                     got = None
                     try:
                         signal.raise_signal(signal.SIGINT)
